@@ -75,6 +75,26 @@ fn main() {
             std::process::exit(code)
         }
         "replay" => std::process::exit(runner::replay_cmd(Path::new(&args[2]))),
+        "selftest" if args.get(2).map(|s| s.as_str()) == Some("determinism") => {
+            let n: u64 = args.get(4).and_then(|s| s.parse().ok()).unwrap_or(2000);
+            let ids: Vec<String> = match args.get(3).map(|s| s.as_str()) {
+                Some("all") | None => ["C01", "C03", "C04", "C05", "C06", "C10", "C11", "C12", "C13", "C14", "C19", "C20"].iter().map(|s| s.to_string()).collect(),
+                Some(x) => vec![x.to_string()],
+            };
+            let mut worst = 0;
+            for id in ids {
+                let n = if id == "C20" { n.min(300) } else { n };
+                let c = dispatch!(id.as_str(), determinism, n);
+                worst = worst.max(c);
+            }
+            std::process::exit(worst)
+        }
+        "inproc" => {
+            let start: u64 = args.get(3).and_then(|s| s.parse().ok()).unwrap_or(0);
+            let count: u64 = args.get(4).and_then(|s| s.parse().ok()).unwrap_or(100);
+            let code = dispatch!(args[2].as_str(), inproc, start, count);
+            std::process::exit(code)
+        }
         "selftest" => std::process::exit(selftest(args.get(2).map(|s| s.as_str()).unwrap_or("bindings"))),
         id if id.starts_with('C') => {
             let tier = args
